@@ -133,3 +133,42 @@ func Harness_C12_move_subtree() {
 	vm.Assert("C12.move_locks_free", s.env.LocksFree())
 	vm.Cover("C12.move_with_child", strings.HasPrefix(s.child, s.d+"/"))
 }
+
+
+// Harness_C12_move_nested_subtree: the renamed directory sits below another directory and has children
+// whose names share characters with the path of the directory.
+func Harness_C12_move_nested_subtree() {
+	env := VerifNewEnv(config.PipeConfig{RecordSize: 20}, config.CryptoConfig{}, config.CryptoConfig{})
+	env.AddEntry("/", tar.TypeDir, 0, false, "")
+	env.P.VerifSetRoot("/")
+	pn := "/" + persisters.VerifComponent("P", 1, "ab_")
+	env.AddEntry(pn, tar.TypeDir, 0, false, "")
+	d := pn + "/" + persisters.VerifComponent("D", 2, "ab_.")
+	env.AddEntry(d, tar.TypeDir, 0, false, "")
+	c1 := d + "/" + persisters.VerifComponent("C1", 2, "ab_.")
+	env.AddEntry(c1, tar.TypeReg, 0, false, "")
+	sib := pn + "/" + persisters.VerifComponent("S", 3, "ab_.")
+	vm.Assume(sib != d)
+	env.AddEntry(sib, tar.TypeReg, 0, false, "")
+	t := "/" + persisters.VerifComponent("T", 1, "xyz")
+	if vm.Bool("targetNested") {
+		t = pn + "/" + persisters.VerifComponent("T", 1, "xyz")
+	}
+	before := env.P.VerifRows()
+	err := env.WriteOps.Move(d, t)
+	vm.Assert("C12.nested_move_no_error", err == nil)
+	after := env.P.VerifRows()
+	vm.Assert("C12.nested_move_keeps_row_count", len(after) == len(before))
+	for i, b := range before {
+		a := after[i]
+		if b.Name == d {
+			vm.Assert("C12.nested_move_dir_renamed", a.Name == t && a.Deleted == 0)
+		} else if strings.HasPrefix(b.Name, d+"/") {
+			vm.Assert("C12.nested_move_descendant_renamed", a.Name == t+b.Name[len(d):] && a.Deleted == 0)
+		} else {
+			vm.Assert("C12.nested_move_outside_row_untouched", a.Name == b.Name && a.Deleted == b.Deleted)
+		}
+		vm.Assert("C12.nested_move_keeps_content_position", a.Record == b.Record && a.Block == b.Block)
+	}
+	vm.Assert("C12.nested_move_locks_free", env.LocksFree())
+}
